@@ -152,7 +152,7 @@ def search(ctx: Ctx) -> Result:
 
 
 SPEC = PropSpec(
-    prop='C13', translators=[], run=run, search=search,
+    prop='C13', translators=['deciderfrag'], run=run, search=search,
     rule='bounded-exhaustive: all sequences of length 2-3 (4 sampled in quick, all in thorough) over {local event 0/1/2, remote '
          'updated/halted/completed with the local or a foreign run id, a merged completed+updated message} on a 3-block singleton '
          'pattern; plus adaptive random histories (6-40 ops, half remote) over pattern sets containing singleton patterns, memory '
